@@ -122,8 +122,12 @@ SqI(a, b) == IF a = <<>> THEN 0
 \* thresholded bit sets: bit i is set iff 2*v[i] > thr2 (thr2 = 2*threshold)
 Bits(v, thr2) == {i \in DOMAIN v : 2 * v[i] > thr2}
 
-Dist(metric, scale, thr2, a, b) ==
+\* haversine: table of reference distances (metres) supplied with the trace
+Hav(U, a, b) == (CHOOSE t \in Range(U.hav) : t.a = a /\ t.b = b).d
+
+Dist(U, metric, scale, thr2, a, b) ==
   CASE metric = "euclidean" -> scale * SqI(a, b)
+    [] metric = "haversine" -> Hav(U, a, b)
     [] metric = "dot"       -> scale * (0 - DotI(a, b))
     [] metric = "cosine"    -> scale * (1 - DotI(a, b))
     [] metric = "hamming"   ->
@@ -140,8 +144,8 @@ Dist(metric, scale, thr2, a, b) ==
 
 Cands(S, U, pts, p, filter) == {i \in EvalQ(S, U, pts, filter) : HasIx(S, pts[i], p)}
 
-PDist(S, pts, p, vec, i) ==
-  Dist(S[p].metric, S[p].scale, S[p].thr2, vec, IxOf(S, pts[i], p))
+PDist(S, U, pts, p, vec, i) ==
+  Dist(U, S[p].metric, S[p].scale, S[p].thr2, vec, IxOf(S, pts[i], p))
 
 \* every hit is a live in-filter holder of the field, reported distance and
 \* hybrid score are right, order is non-decreasing, no duplicates, <= limit
@@ -152,7 +156,7 @@ HitsSound(S, U, pts, p, vec, limit, w4, filter, hits, tol) ==
       /\ Range(ids) \subseteq cand
       /\ Len(hits) <= limit
       /\ \A k \in DOMAIN hits :
-            /\ Abs(hits[k].d - PDist(S, pts, p, vec, hits[k].id)) <= tol
+            /\ Abs(hits[k].d - PDist(S, U, pts, p, vec, hits[k].id)) <= tol
             /\ Abs(hits[k].h4 + w4 * hits[k].d) <= tol * Max2(1, Abs(w4)) + 1
       /\ \A k \in DOMAIN hits : k > 1 => hits[k - 1].d <= hits[k].d
 
@@ -163,7 +167,7 @@ HitsExact(S, U, pts, p, vec, limit, w4, filter, hits, tol) ==
   IN  /\ HitsSound(S, U, pts, p, vec, limit, w4, filter, hits, tol)
       /\ Len(hits) = Min2(limit, Cardinality(cand))
       /\ \A i \in cand \ got : \A j \in got :
-            PDist(S, pts, p, vec, i) + tol >= PDist(S, pts, p, vec, j)
+            PDist(S, U, pts, p, vec, i) + tol >= PDist(S, U, pts, p, vec, j)
 
 ---------------------------------------------------------------------------
 (* Text: tf-idf.  A text index value is [tf : term -> freq, len : Nat];   *)
